@@ -154,6 +154,7 @@ inline VersionedValue<uint32_t> DepositBox<T>::emplace(
   auto id = _slot_id_allocator.allocate();
   auto& slot = _slots.ensure(id.value);
   slot.version.store(id.version, ::std::memory_order_relaxed);
+  BABYLON_VERIF_POINT("dbox:version_stored");
   slot.object.emplace(::std::forward<Args>(args)...);
   return id;
 }
@@ -169,6 +170,7 @@ inline T* DepositBox<T>::take_released(VersionedValue<uint32_t> id) noexcept {
   auto& slot = _slots[id.value];
   if (slot.version.compare_exchange_strong(id.version, id.version + 1,
                                            ::std::memory_order_relaxed)) {
+    BABYLON_VERIF_POINT("dbox:take_won");
     return &*(slot.object);
   }
   return nullptr;
